@@ -302,7 +302,7 @@ macro_rules! hz_harness {
     };
 }
 
-//@ harness name=hz_arm_cipher_round prop=C17,C03 tier=quick bits=257 stub=1 est=70 variants=aes:armv8+hazmat desc="hazmat::cipher_round(block, key) == MixColumns(ShiftRows(SubBytes(block))) ^ key for all 2^128 blocks x 2^128 keys, on either dispatch arm of the aarch64 build (CPU answer symbolic: armv8/hazmat.rs = AESE with zero key, AESMC, EOR under the concrete instruction model; or fixslice64 software)"
+//@ harness name=hz_arm_cipher_round prop=C17,C03 tier=quick bits=257 stub=1 variants=aes:armv8+hazmat est=55 desc="hazmat::cipher_round(block, key) == MixColumns(ShiftRows(SubBytes(block))) ^ key for all 2^128 blocks x 2^128 keys, on either dispatch arm of the aarch64 build (CPU answer symbolic: armv8/hazmat.rs = AESE with zero key, AESMC, EOR under the concrete instruction model; or fixslice64 software)"
 hz_harness!(hz_arm_cipher_round, 33, 40, |inp| {
     va::set_concrete(true);
     ni_model::set_cpu(inp[32] & 1 == 1);
@@ -313,7 +313,7 @@ hz_harness!(hz_arm_cipher_round, 33, 40, |inp| {
     Some(b.0 == ra::xor(&ra::round_core(&blk), &key))
 });
 
-//@ harness name=hz_arm_equiv_inv_cipher_round prop=C17,C03 tier=quick bits=257 stub=1 est=210 variants=aes:armv8+hazmat desc="hazmat::equiv_inv_cipher_round(block, key) == InvMixColumns(InvShiftRows(InvSubBytes(block))) ^ key, all blocks and keys, either dispatch arm of the aarch64 build (armv8: AESD with zero key, AESIMC, EOR)"
+//@ harness name=hz_arm_equiv_inv_cipher_round prop=C17,C03 tier=quick bits=257 stub=1 variants=aes:armv8+hazmat est=175 desc="hazmat::equiv_inv_cipher_round(block, key) == InvMixColumns(InvShiftRows(InvSubBytes(block))) ^ key, all blocks and keys, either dispatch arm of the aarch64 build (armv8: AESD with zero key, AESIMC, EOR)"
 hz_harness!(hz_arm_equiv_inv_cipher_round, 33, 40, |inp| {
     va::set_concrete(true);
     ni_model::set_cpu(inp[32] & 1 == 1);
@@ -326,7 +326,7 @@ hz_harness!(hz_arm_equiv_inv_cipher_round, 33, 40, |inp| {
 
 // (that MixColumns and InvMixColumns of the oracle are mutually inverse is the oracle lemma c02_ni::fips_eqinv_lemmas;
 // together with the two equalities below it makes hazmat::mix_columns / inv_mix_columns mutually inverse)
-//@ harness name=hz_arm_mix_columns prop=C17,C03 tier=quick bits=129 stub=1 est=30 variants=aes:armv8+hazmat desc="hazmat::mix_columns == FIPS-197 MixColumns for all 2^128 blocks, on either dispatch arm of the aarch64 build (CPU answer symbolic: armv8 = LD1, AESMC, ST1 under the concrete instruction model; or fixslice64 software)"
+//@ harness name=hz_arm_mix_columns prop=C17,C03 tier=quick bits=129 stub=1 variants=aes:armv8+hazmat est=20 desc="hazmat::mix_columns == FIPS-197 MixColumns for all 2^128 blocks, on either dispatch arm of the aarch64 build (CPU answer symbolic: armv8 = LD1, AESMC, ST1 under the concrete instruction model; or fixslice64 software)"
 hz_harness!(hz_arm_mix_columns, 17, 40, |inp| {
     va::set_concrete(true);
     ni_model::set_cpu(inp[16] & 1 == 1);
@@ -335,7 +335,7 @@ hz_harness!(hz_arm_mix_columns, 17, 40, |inp| {
     hazmat::mix_columns(&mut b);
     Some(b.0 == ra::mix_columns(&blk))
 });
-//@ harness name=hz_arm_inv_mix_columns prop=C17,C03 tier=quick bits=129 stub=1 est=70 variants=aes:armv8+hazmat desc="hazmat::inv_mix_columns == FIPS-197 InvMixColumns for all 2^128 blocks, on either dispatch arm of the aarch64 build (armv8 = AESIMC)"
+//@ harness name=hz_arm_inv_mix_columns prop=C17,C03 tier=quick bits=129 stub=1 variants=aes:armv8+hazmat est=60 desc="hazmat::inv_mix_columns == FIPS-197 InvMixColumns for all 2^128 blocks, on either dispatch arm of the aarch64 build (armv8 = AESIMC)"
 hz_harness!(hz_arm_inv_mix_columns, 17, 40, |inp| {
     va::set_concrete(true);
     ni_model::set_cpu(inp[16] & 1 == 1);
@@ -345,7 +345,7 @@ hz_harness!(hz_arm_inv_mix_columns, 17, 40, |inp| {
     Some(c.0 == ra::inv_mix_columns(&blk))
 });
 
-//@ harness name=hz_arm_cipher_round_par prop=C17,C04 tier=quick bits=2048 stub=1 est=220 variants=aes:armv8+hazmat desc="hazmat::cipher_round_par on 8 arbitrary blocks with 8 arbitrary round keys == eight independent cipher_round calls with the respective keys (armv8 arm)"
+//@ harness name=hz_arm_cipher_round_par prop=C17,C04 tier=quick bits=2048 stub=1 variants=aes:armv8+hazmat est=205 need=10 desc="hazmat::cipher_round_par on 8 arbitrary blocks with 8 arbitrary round keys == eight independent cipher_round calls with the respective keys (armv8 arm)"
 hz_harness!(hz_arm_cipher_round_par, 256, 40, |inp| {
     va::set_concrete(true);
     ni_model::set_cpu(true);
